@@ -920,3 +920,69 @@ Proof.
       destruct (clear_removes _ p w w' Ec Hn) as [Hgone _]. exact Hgone.
     + inversion H; subst. split; auto. split; [auto|]. split; [apply step_refl|]. split; discriminate.
 Qed.
+
+(* ---- the FilerDoer layer ---- *)
+Definition hop_of (opened : bool) (h : hop2) : option hop :=
+  match h with
+  | H h' => Some h'
+  | HDoerEnter t => if opened then None else Some (enter_hop t)
+  | HDoerExit => Some (HExit false)
+  end.
+
+Definition hop2_cfg (c : config) (st : filer) (opened : bool) (h : hop2) : config :=
+  match hop_of opened h with
+  | Some h' => hop_cfg c st h'
+  | None => hop_cfg c st (HClose false)
+  end.
+
+Theorem hop2_ok : forall c st op h w r st' op' w',
+  env_all c w -> good c st -> run_hop2 c st op h w = (r, st', op', w') ->
+  exists w0,
+    step_ok (scope st) w w0 /\ step_ok (Qof (hop2_cfg c st op h)) w0 w' /\
+    env_all c w' /\ (r = Ok tt -> good c st').
+Proof.
+  intros c st op h w r st' op' w' E G Hr. unfold hop2_cfg.
+  destruct h as [h'|t|]; unfold run_hop2 in Hr; cbn [hop_of].
+  - destruct (run_hop c st h' w) as [[r1 st1] w1] eqn:Eh. inversion Hr; subst. eapply hop_ok; eauto.
+  - destruct op; cbn [hop_of].
+    + inversion Hr; subst. exists w'. split; [apply step_refl|split; [apply step_refl|split; auto]].
+    + destruct (run_hop c st (enter_hop t) w) as [[r1 st1] w1] eqn:Eh. inversion Hr; subst.
+      eapply hop_ok; eauto.
+  - destruct (run_hop c st (HExit false) w) as [[r1 st1] w1] eqn:Eh. inversion Hr; subst. eapply hop_ok; eauto.
+Qed.
+
+(* entering with an opened Filer changes nothing: not the tree, not .path, not .temp *)
+Theorem doer_enter_opened : forall c st t w,
+  run_hop2 c st true (HDoerEnter t) w = (Ok tt, st, true, w).
+Proof. reflexivity. Qed.
+
+(* the doer's exit is the context-manager exit without a clear request *)
+Theorem doer_exit_is_exit : forall c st op w,
+  run_hop2 c st op HDoerExit w =
+  let '(r, st', w') := run_hop c st (HExit false) w in (r, st', false, w').
+Proof. reflexivity. Qed.
+
+Fixpoint hist2_ok (c : config) (st : filer) (op : bool) (hs : list hop2) (w : world) : Prop :=
+  match hs with
+  | [] => True
+  | h :: hs' =>
+    let '(r, st', op', w') := run_hop2 c st op h w in
+    (exists w0, step_ok (scope st) w w0 /\ step_ok (Qof (hop2_cfg c st op h)) w0 w') /\
+    (r = Ok tt -> hist2_ok c st' op' hs' w')
+  end.
+
+Theorem history2_ok : forall c hs st op w, env_all c w -> good c st -> hist2_ok c st op hs w.
+Proof.
+  intros c hs. induction hs as [|h hs IH]; intros st op w E G; simpl; auto.
+  destruct (run_hop2 c st op h w) as [[[r st'] op'] w'] eqn:Eh.
+  destruct (hop2_ok c st op h w r st' op' w' E G Eh) as (w0 & S0 & S1 & E' & G').
+  split; [now exists w0|]. intros Hr. apply IH; auto.
+Qed.
+
+Theorem constructor_history2_ok : forall c w p w1 hs,
+  env_all c w -> c_tmp c <> [] -> remake c w = (Ok p, w1) -> hist2_ok c (born c p) true hs w1.
+Proof.
+  intros c w p w1 hs E Hn Hm. apply history2_ok.
+  - eapply constructor_env_all; eauto.
+  - eapply born_good; eauto.
+Qed.
